@@ -318,10 +318,17 @@ func ruleR06dInto(h *H, rule string, withRollback bool) {
 				return ok && ref.Is("server/kv", dbt, "versionIdTracker")
 			}) {
 				if f := ci.Common().StaticCallee(); f != nil && f.Pkg != nil && f.Pkg.Pkg.Path() != "sync/atomic" {
-					// the call that is handed the logged request
+					// the call(s) that apply the logged request or one of its operations
 					for _, a := range ci.Common().Args {
-						if p, isP := ir.Canon(a).(*ssa.Parameter); isP && ir.TypeIs(p.Type(), "proto", "WriteRequest") {
+						if ir.DependsOn(a, func(x ssa.Value) bool {
+							if p, isP := x.(*ssa.Parameter); isP && ir.TypeIs(p.Type(), "proto", "WriteRequest") {
+								return true
+							}
+							r, ok := ir.FieldLoadOf(x)
+							return ok && r.Struct != nil && r.Struct.Obj().Name() == "WriteRequest"
+						}) {
 							applyCalls = append(applyCalls, ci)
+							break
 						}
 					}
 				}
@@ -358,7 +365,10 @@ func ruleR06dInto(h *H, rule string, withRollback bool) {
 				good := true
 				at := liftToRoot(fn, in)
 				for _, a := range applyCalls {
-					if at == nil || !ir.Dominates(a, at) {
+					// no operation of the request may be applied after the counter was read
+					if at == nil {
+						good = false
+					} else if r, _ := ir.Reach(ir.Search{From: at}, ir.Is(a)); r {
 						good = false
 					}
 				}
